@@ -264,7 +264,9 @@ func (m *Metrics) onMetrics(ctx *gin.Context) {
 
 	var out strings.Builder
 
-	if (typ == "" || typ == metricsTypePaths) && (!anyFilterActive || pathFilter != "") {
+	// the path manager is nil while core is creating or re-creating it
+	if !interfaceIsEmpty(pathManager) &&
+		(typ == "" || typ == metricsTypePaths) && (!anyFilterActive || pathFilter != "") {
 		data, err := pathManager.APIPathsList()
 		if err == nil && len(data.Items) != 0 {
 			out.WriteString("# Paths\n")
@@ -350,7 +352,8 @@ func (m *Metrics) onMetrics(ctx *gin.Context) {
 		}
 	}
 
-	if (typ == "" || typ == metricsTypeForwardDests) &&
+	if !interfaceIsEmpty(pathManager) &&
+		(typ == "" || typ == metricsTypeForwardDests) &&
 		(!anyFilterActive || pathFilter != "" || forwardFilter != "") {
 		data, err := pathManager.APIPathsList()
 		if err == nil {
